@@ -556,6 +556,10 @@ impl<'a> Hook for Fuzz<'a> {
         let outcome = if o.panic.is_some() { "PANIC" } else if !o.banned.is_empty() { "ban" } else { "ok" };
         let genclass = gen.split('|').take(2).collect::<Vec<_>>().join("|");
         self.out.cell(&format!("{}|{}|{}|{}", server::kind_of(m.proto, &m.data), self.state_before, genclass, outcome));
+        if m.label != Label::Honest {
+            let (kind, st) = (server::kind_of(m.proto, &m.data), self.state_before.clone());
+            self.out.sample(&format!("hostile-message|{}", outcome), 2, || json!({"message": kind, "bytes": m.data.len(), "generator": gen, "peer_state_before": st, "outcome": outcome}));
+        }
         if o.panic.is_some() {
             self.record_panic(w, m, &gen);
         }
